@@ -27,10 +27,17 @@ GRAMMARS = {
     "choice": ('r = { ("a" | "b" | \'c\'..\'e\')+ ~ EOI }\nCOMMENT = _{ "#" }', "ab#c", "ax"),
     "silent": ("r = { s ~ ASCII_ALPHANUMERIC }\ns = _{ ASCII_DIGIT{2} }", "12a", "1a"),
     "skip": ('r = { (!("ab" | "c") ~ ANY)* ~ "c" }', "xxc", "xx"),
+    # shares its choice sets / literals with SIBLING below, where they play another role
+    "sep": ('r = { sep ~ EOI }\nsep = { " " | "\\t" }', " ", "  "),
+    "trivia": ('r = { "a" ~ EOI }\nWHITESPACE = _{ "x" | "y" }', "axy", "a b"),
 }
+# same alternatives as "sep"'s rule but as implicit WHITESPACE (fused into a repeating SKIP regex),
+# and the same alternatives as "trivia"'s WHITESPACE but as an ordinary single choice
+SIBLING = 'o = { w ~ w+ ~ EOI }\nw = { ("x" | "y") ~ "-"? }\nWHITESPACE = _{ " " | "\\t" }'
+
 OTHER = 'o = { ASCII_HEX_DIGIT ~ (ASCII_ALPHA | ASCII_DIGIT | "-" | "_")* ~ NEWLINE? ~ LETTER* ~ SOI? ~ EOI }\nWHITESPACE = _{ " " | "\\n" }\nCOMMENT = _{ "//" }'
 
-OPS = ["mk_same_opt", "mk_same_plain", "mk_other_opt", "mk_other_plain", "gen_same_opt", "gen_other_opt", "gen_other_plain", "use_ok", "use_fail", "other_parse"]
+OPS = ["mk_same_opt", "mk_same_plain", "mk_other_opt", "mk_other_plain", "gen_same_opt", "gen_other_opt", "gen_other_plain", "use_ok", "use_fail", "other_parse", "sibling_parse", "sibling_gen_parse"]
 
 
 def build_observed(cp, gname: str, mode: str):
@@ -63,6 +70,14 @@ def apply_op(cp, op: str, gname: str, observed):
     elif op == "use_fail":
         if observed is not None:
             pestenv.run_parse(observed, "r", bad_in)
+    elif op == "sibling_parse":
+        p = cp.parser(SIBLING, optimized=True)
+        pestenv.run_parse(p, "o", "x  y-\tx")
+        pestenv.run_parse(p, "o", "xx")
+    elif op == "sibling_gen_parse":
+        m = cp.generated(cp.parser(SIBLING, optimized=True))
+        pestenv.run_parse(m, "o", "x  y-\tx")
+        pestenv.run_parse(m, "o", "xx")
     elif op == "other_parse":
         p = cp.parser(OTHER, optimized=True)
         pestenv.run_parse(p, "o", "a1-b\n")
@@ -199,7 +214,7 @@ def main(tier: str, seed: int, args) -> int:
     regions = known.regions_for("C15")
     hists = [[]] + [[o] for o in OPS]
     if tier == "quick":
-        hists += [list(h) for h in itertools.product(["mk_same_opt", "mk_other_opt", "gen_other_opt", "use_fail", "other_parse"], repeat=2)]
+        hists += [list(h) for h in itertools.product(["mk_same_opt", "mk_other_opt", "gen_other_opt", "use_fail", "other_parse", "sibling_parse"], repeat=2)]
     else:
         hists += [list(h) for h in itertools.product(OPS, repeat=2)]
         rnd = random.Random(seed)
@@ -221,7 +236,7 @@ def main(tier: str, seed: int, args) -> int:
                             "mode": mode,
                             "history": h,
                             "when": when,
-                            "lengths": [0, 1, 2] if tier == "quick" else [0, 1, 2, 3],
+                            "lengths": [0, 1, 2, 3] if tier != "quick" or gname in ("sep", "trivia") else [0, 1, 2],
                             "regions": {k[len(unit) + 1 :]: v for k, v in regions.items() if k.startswith(unit + "|")},
                         }
                     )
